@@ -1,14 +1,24 @@
 import FxVerif.Model.C09
+import FxVerif.Model.C09Shape
 import FxVerif.Proofs.C09
 import FxVerif.Gen.C09
 /-!
 # C09 — a precompile call is all-or-nothing across Cosmos state and EVM state
 
 Property theorems only.  Every theorem quantifies over ALL programs (call trees), all `fuel`, all `gas` (so every point at
-which execution can be cut short), all gas costs carried by the program nodes, all native actions (arbitrary functions
-that may fail after half-writing the native store and after emitting logs) and all entry states.  `N` (the native store)
-is an arbitrary type.  The generated table `Gen.C09.methods` (re-read from `/repo` on every run) carries the obligation
-that licenses instantiating the abstract action with each concrete precompile method.
+which execution can be cut short), all gas costs carried by the program nodes, all keeper parts of native actions
+(arbitrary functions that may fail after half-writing the native store and after emitting logs, or panic), all EVM calls a
+native action makes on the same StateDB (ERC-20 calls: arbitrary programs again) and all entry states.  `N` (the native
+store) is an arbitrary type.
+
+A precompile node carries the SHAPE of its method's `Run` (`RunShape`: keeper writes on `stateDB.Context()` before / after
+`ExecuteNativeAction`, a deferred `recover()`, an EVM call that follows a keeper write inside the closure).  The positive
+theorems hold for programs all of whose precompile nodes have the clean shape (`Clean p`); for each of the three ways a
+shape can be unclean a theorem exhibits programs that break atomicity (so none of the conditions can be dropped, and the
+ORDER of the statements in `Run` is what decides: the same write after the native action is harmless); and the
+shape of every real method is regenerated from the Go AST on every run (`Gen.C09.runFacts`, `shapeOf`) and decided to be
+clean (`table_shapes_clean`, `evm_calls_precede_keeper_writes`), which is what licenses instantiating the model with the
+real methods (`FromTable`, `atomicity_of_table_programs`).
 -/
 namespace FxVerif.Props.C09
 open FxVerif.Model.C09 FxVerif.Proofs.C09
@@ -16,68 +26,115 @@ open FxVerif.Model.C09 FxVerif.Proofs.C09
 variable {N : Type}
 
 /-- reverting the StateDB to the snapshot taken when a frame was entered restores that frame's entry state exactly —
-EVM storage, native store, logs and journal — whatever the frame did and however it ended -/
-theorem journal_undo (fuel : Nat) (ro : Bool) (gas : Nat) (p : List (Prog N)) (s : St N) :
+EVM storage, native store, logs and journal — whatever the frame did and however it ended (an unrecovered Go panic
+excepted: then the whole transaction is dropped, see `atomicity`) -/
+theorem journal_undo (fuel : Nat) (ro : Bool) (gas : Nat) (p : List (Prog N)) (s : St N) (hc : Clean p)
+    (hna : (exec fuel ro gas p s).1 ≠ .abort) :
     (exec fuel ro gas p s).2.1.revertTo s.journal.length = s :=
-  revertTo_of_ext (exec_good fuel ro gas p s).1
+  revertTo_of_ext ((exec_good fuel ro gas p s hc).2.2.1 hna)
 
 /-- the journal machine (the fork's StateDB discipline) refines the declarative snapshot semantics: same outcome, same gas
 left, and when the frame returns normally the same storage, native store and logs -/
-theorem exec_refines_spec (fuel : Nat) (ro : Bool) (gas : Nat) (p : List (Prog N)) (s : St N) :
+theorem exec_refines_spec (fuel : Nat) (ro : Bool) (gas : Nat) (p : List (Prog N)) (s : St N) (hc : Clean p) :
     (exec fuel ro gas p s).1 = (spec fuel ro gas p s.toView).1 ∧
     (exec fuel ro gas p s).2.2 = (spec fuel ro gas p s.toView).2.2 ∧
     ((exec fuel ro gas p s).1 = .ok → (exec fuel ro gas p s).2.1.toView = (spec fuel ro gas p s.toView).2.1) :=
-  (exec_good fuel ro gas p s).2
+  ⟨(exec_good fuel ro gas p s hc).1, (exec_good fuel ro gas p s hc).2.1, (exec_good fuel ro gas p s hc).2.2.2⟩
 
 /-- whole transactions: what is committed is exactly what the declarative semantics says -/
-theorem tx_refines_spec (fuel gas : Nat) (p : List (Prog N)) (v : View N) :
+theorem tx_refines_spec (fuel gas : Nat) (p : List (Prog N)) (v : View N) (hc : Clean p) :
     runTx fuel gas p v = specTx fuel gas p v := by
-  have hg := exec_good fuel false gas p ({ toView := v, journal := [] } : St N)
-  obtain ⟨hext, ho, hgas, hv⟩ := hg
+  have hg := exec_good fuel false gas p ({ toView := v, journal := [] } : St N) hc
+  obtain ⟨ho, hgas, hext, hv⟩ := hg
   unfold runTx specTx
   simp only [commit]
   by_cases hok : (exec fuel false gas p ({ toView := v, journal := [] } : St N)).1 = .ok
   · have hok' := ho ▸ hok
     simp only [hok, hok', ↓reduceIte, hv hok, hgas]
   · have hok' : ¬ (spec fuel false gas p v).1 = .ok := fun h => hok (ho ▸ h)
-    have hr := revertTo_of_ext hext
-    simp only [List.length_nil] at hr
-    simp only [hok, ↓reduceIte, hr, ← ho, hgas]
+    by_cases hab : (exec fuel false gas p ({ toView := v, journal := [] } : St N)).1 = .abort
+    · have hab' := ho ▸ hab
+      simp [hab, hab']
+    · have hr := revertTo_of_ext (hext hab)
+      simp only [List.length_nil] at hr
+      simp only [hok, hab, ↓reduceIte, hr, ← ho, hgas]
 
 /-- atomicity at transaction level, for every program, fuel and gas limit:
-* the transaction does not end normally (explicit revert, invalid opcode, a failing precompile, or gas running out at
-  ANY point, in any frame) ⇒ nothing is committed: native store, EVM storage and logs are the initial ones;
+* the transaction does not end normally (explicit revert, invalid opcode, a failing precompile, a panic, or gas running
+  out at ANY point, in any frame) ⇒ nothing is committed: native store, EVM storage and logs are the initial ones;
 * it ends normally ⇒ native store and EVM storage committed are the two halves of one and the same final state of the
   declarative semantics (all surviving effects together) -/
-theorem atomicity (fuel gas : Nat) (p : List (Prog N)) (v : View N) :
+theorem atomicity (fuel gas : Nat) (p : List (Prog N)) (v : View N) (hc : Clean p) :
     ((runTx fuel gas p v).1 ≠ .ok → (runTx fuel gas p v).2.1 = v) ∧
     ((runTx fuel gas p v).1 = .ok → (runTx fuel gas p v).2.1 = (spec fuel false gas p v).2.1) := by
-  rw [tx_refines_spec]
+  rw [tx_refines_spec fuel gas p v hc]
   unfold specTx
   by_cases hok : (spec fuel false gas p v).1 = .ok <;> simp [hok]
 
+/-- the same for a DIRECT call (the transaction's `to` is the precompile): what is committed is what the declarative
+semantics says; a call that does not end normally — too little gas for `RequiredGas`, a failing keeper part after
+half-writing, a failing ERC-20 call inside, a panic — commits exactly the initial state, the transaction's value included -/
+theorem direct_call_atomic (fuel gas : Nat) (xfer : Option (N → N)) (req : Nat) (sh : RunShape) (out : N → N)
+    (inner : List (Nat × List (Prog N))) (act : ActionX N) (v : View N) (hsh : sh.clean = true)
+    (hinner : ∀ x ∈ inner, Clean x.2) :
+    runTxPre fuel gas xfer req sh out inner act v = specTxPre fuel gas xfer req sh out inner act v ∧
+    ((runTxPre fuel gas xfer req sh out inner act v).1 ≠ .ok → (runTxPre fuel gas xfer req sh out inner act v).2.1 = v) := by
+  have hev : EvGood (exec fuel) (spec fuel) inner := fun x hx ro' s' => exec_good fuel ro' x.1 x.2 s' (hinner x hx)
+  have key : ∀ (s1 : St N), Ext ({ toView := v, journal := [] } : St N) s1 →
+      (let r := runPre (exec fuel) false false gas req sh out inner act s1
+       (if r.1 = .ok then (Outcome.ok, commit r.2.1, r.2.2)
+        else if r.1 = .abort then (.abort, v, 0)
+        else (r.1, commit (r.2.1.revertTo 0), if r.1 = .revert then r.2.2 else 0))) =
+      (let r := specPre (spec fuel) false false gas req sh out inner act s1.toView
+       (if r.1 = .ok then (Outcome.ok, r.2.1, r.2.2) else (r.1, v, if r.1 = .revert then r.2.2 else 0))) := by
+    intro s1 h1
+    have hg := runPre_good (exec fuel) (spec fuel) false false gas req sh out inner act s1 hsh hev
+    obtain ⟨ho, hgas, hext, hv⟩ := hg
+    simp only [commit]
+    by_cases hok : (runPre (exec fuel) false false gas req sh out inner act s1).1 = .ok
+    · have hok' := ho ▸ hok
+      simp only [hok, hok', ↓reduceIte, hv hok, hgas]
+    · have hok' : ¬ (specPre (spec fuel) false false gas req sh out inner act s1.toView).1 = .ok := fun h => hok (ho ▸ h)
+      by_cases hab : (runPre (exec fuel) false false gas req sh out inner act s1).1 = .abort
+      · have hab' := ho ▸ hab
+        simp [hab, hab']
+      · have hr := revertTo_of_ext (h1.trans (hext hab))
+        simp only [List.length_nil] at hr
+        simp only [hok, hab, ↓reduceIte, hr, ← ho, hgas]
+  have heq : runTxPre fuel gas xfer req sh out inner act v = specTxPre fuel gas xfer req sh out inner act v := by
+    unfold runTxPre specTxPre
+    cases xfer with
+    | none => exact key _ (Ext.refl _)
+    | some f =>
+      exact key (({ toView := v, journal := [] } : St N).transfer f) (ext_transfer _ f)
+  refine ⟨heq, ?_⟩
+  rw [heq]
+  unfold specTxPre
+  exact tx_wrap_fail _ v
+
 /-- in particular the native (Cosmos) store after a transaction that failed for whatever reason is the initial one -/
-theorem failed_tx_native_unchanged (fuel gas : Nat) (p : List (Prog N)) (v : View N)
+theorem failed_tx_native_unchanged (fuel gas : Nat) (p : List (Prog N)) (v : View N) (hc : Clean p)
     (h : (runTx fuel gas p v).1 ≠ .ok) : (runTx fuel gas p v).2.1.native = v.native := by
-  rw [(atomicity fuel gas p v).1 h]
+  rw [(atomicity fuel gas p v hc).1 h]
 
 /-- atomicity at frame level, failure half: if a child frame does not return normally (it reverted, hit an invalid
 opcode, a precompile inside failed and it bubbled up, or it ran out of gas anywhere), the caller continues — or itself
 halts — in EXACTLY the state it had before the call: none of the child's EVM writes, native effects (including the
 value transfer), logs or journal entries remain.  Swallowing the failure (`try/catch`) does not keep anything. -/
 theorem frame_failure_restores (fuel : Nat) (ro : Bool) (gas : Nat) (h : CallHdr N) (body rest : List (Prog N)) (s : St N)
-    (hpre : ¬ (gas < h.callc ∨ (ro = true ∧ h.xfer.isSome = true)))
-    (hne : (exec fuel (ro || h.kind == .staticcall) (fwdGas h gas + h.stip) body (s.enter h)).1 ≠ .ok) :
+    (hc : Clean body)
+    (hpre : ¬ (gas < h.callc ∨ (ro = true ∧ h.xfer.isSome = true))) (hfund : h.unfunded s.native = false)
+    (hne : (exec fuel (ro || h.kind == .staticcall) (fwdGas h gas + h.stip) body (s.enter h)).1 ≠ .ok)
+    (hna : (exec fuel (ro || h.kind == .staticcall) (fwdGas h gas + h.stip) body (s.enter h)).1 ≠ .abort) :
     exec (fuel + 1) ro gas (.call h body :: rest) s =
       (let r := exec fuel (ro || h.kind == .staticcall) (fwdGas h gas + h.stip) body (s.enter h)
        let g3 := keepGas h gas + (if r.1 = .revert then r.2.2 else 0)
        if g3 < h.pFail then (.fail, s, 0)
        else if h.swallow then exec fuel ro (g3 - h.pFail) rest s else (.revert, s, g3 - h.pFail)) := by
-  have hu := journal_undo fuel (ro || h.kind == .staticcall) (fwdGas h gas + h.stip) body (s.enter h)
   have hext : Ext s (exec fuel (ro || h.kind == .staticcall) (fwdGas h gas + h.stip) body (s.enter h)).2.1 :=
-    (ext_enter s h).trans (exec_good _ _ _ _ _).1
+    (ext_enter s h).trans ((exec_good _ _ _ _ _ hc).2.2.1 hna)
   have hr := revertTo_of_ext hext
-  simp only [exec, hpre, ↓reduceIte, resolve, hne, hr]
+  simp only [exec, hpre, hfund, Bool.false_eq_true, ↓reduceIte, resolve, hne, hna, hr]
   generalize exec fuel (ro || h.kind == .staticcall) (fwdGas h gas + h.stip) body (s.enter h) = r
   by_cases h1 : keepGas h gas + (if r.1 = .revert then r.2.2 else 0) < h.pFail
   · simp [h1]
@@ -86,57 +143,196 @@ theorem frame_failure_restores (fuel : Nat) (ro : Bool) (gas : Nat) (h : CallHdr
 /-- atomicity at frame level, success half: if the child returns normally the caller goes on with the child's complete
 final state — its EVM writes and its native effects together -/
 theorem frame_success_keeps (fuel : Nat) (ro : Bool) (gas : Nat) (h : CallHdr N) (body rest : List (Prog N)) (s : St N)
-    (hpre : ¬ (gas < h.callc ∨ (ro = true ∧ h.xfer.isSome = true)))
+    (hpre : ¬ (gas < h.callc ∨ (ro = true ∧ h.xfer.isSome = true))) (hfund : h.unfunded s.native = false)
     (hok : (exec fuel (ro || h.kind == .staticcall) (fwdGas h gas + h.stip) body (s.enter h)).1 = .ok) :
     exec (fuel + 1) ro gas (.call h body :: rest) s =
       (let r := exec fuel (ro || h.kind == .staticcall) (fwdGas h gas + h.stip) body (s.enter h)
        if keepGas h gas + r.2.2 < h.pOk then (.fail, r.2.1, 0)
        else exec fuel ro (keepGas h gas + r.2.2 - h.pOk) rest r.2.1) := by
-  simp only [exec, hpre, ↓reduceIte, resolve, hok]
+  simp only [exec, hpre, hfund, Bool.false_eq_true, ↓reduceIte, resolve, hok]
   generalize exec fuel (ro || h.kind == .staticcall) (fwdGas h gas + h.stip) body (s.enter h) = r
   by_cases h1 : keepGas h gas + r.2.2 < h.pOk <;> simp [h1]
 
-/-- a precompile call whose native action fails — after half-writing the native store (`(act _ _).2.1` arbitrary) and
-after emitting any logs — or which cannot pay its `RequiredGas`, leaves no trace: the caller continues or halts in
-exactly its pre-call state, and all forwarded gas is gone -/
-theorem failed_native_action_leaves_no_trace (fuel : Nat) (ro : Bool) (gas : Nat) (h : CallHdr N) (req : Nat)
-    (act : Action N) (rest : List (Prog N)) (s : St N)
-    (hpre : ¬ (gas < h.callc ∨ (ro = true ∧ h.xfer.isSome = true)))
-    (hfail : fwdGas h gas + h.stip < req ∨ (act (h.kind != .call) (s.enter h).native).1 = false) :
-    exec (fuel + 1) ro gas (.pre h req act :: rest) s =
+/-- a call that attaches more value than the caller holds never starts: the caller goes on (or bubbles up) in exactly its
+pre-call state and gets back all the gas it handed over, stipend included -/
+theorem unfunded_call_leaves_no_trace (fuel : Nat) (ro : Bool) (gas : Nat) (h : CallHdr N) (body rest : List (Prog N)) (s : St N)
+    (hpre : ¬ (gas < h.callc ∨ (ro = true ∧ h.xfer.isSome = true))) (hfund : h.unfunded s.native = true) :
+    exec (fuel + 1) ro gas (.call h body :: rest) s =
+      (let g3 := keepGas h gas + (fwdGas h gas + h.stip)
+       if g3 < h.pFail then (.fail, s, 0)
+       else if h.swallow then exec fuel ro (g3 - h.pFail) rest s else (.revert, s, g3 - h.pFail)) := by
+  have hr := revertTo_of_ext (Ext.refl s)
+  simp only [exec, hpre, hfund, ↓reduceIte, resolve, reduceCtorEq, hr]
+  by_cases h1 : keepGas h gas + (fwdGas h gas + h.stip) < h.pFail
+  · simp [h1]
+  · by_cases h2 : h.swallow = true <;> simp [h1, h2]
+
+/-- a panic that nothing recovers unwinds every frame; the transaction commits nothing -/
+theorem panic_drops_transaction (fuel gas : Nat) (p : List (Prog N)) (v : View N)
+    (h : (exec fuel false gas p { toView := v, journal := [] }).1 = .abort) : runTx fuel gas p v = (.abort, v, 0) := by
+  simp [runTx, h]
+
+/-- a precompile call of the clean shape that fails — it cannot pay `RequiredGas`, an EVM call made from inside the
+native action (ERC-20 `transferFrom`, `burn`) does not return normally, or the keeper part returns an error after
+half-writing the native store (arbitrary store left behind) and after emitting any logs — leaves no trace: the caller
+continues or halts in exactly its pre-call state, and all forwarded gas is gone -/
+theorem failed_precompile_call_leaves_no_trace (fuel : Nat) (ro : Bool) (gas : Nat) (h : CallHdr N) (req : Nat)
+    (sh : RunShape) (out : N → N) (inner : List (Nat × List (Prog N))) (act : ActionX N) (rest : List (Prog N)) (s : St N)
+    (hsh : sh.clean = true) (hinner : ∀ x ∈ inner, Clean x.2)
+    (hpre : ¬ (gas < h.callc ∨ (ro = true ∧ h.xfer.isSome = true))) (hfund : h.unfunded s.native = false)
+    (hfail : (runPre (exec fuel) ro (h.kind != .call) (fwdGas h gas + h.stip) req sh out inner act (s.enter h)).1 = .fail) :
+    exec (fuel + 1) ro gas (.pre h req sh out inner act :: rest) s =
       (if keepGas h gas < h.pFail then (.fail, s, 0)
        else if h.swallow then exec fuel ro (keepGas h gas - h.pFail) rest s else (.revert, s, keepGas h gas - h.pFail)) := by
-  have hg := runPre_good (h.kind != .call) (fwdGas h gas + h.stip) req act (s.enter h)
-  have hext : Ext s (runPre (h.kind != .call) (fwdGas h gas + h.stip) req act (s.enter h)).2.1 :=
-    (ext_enter s h).trans hg.1
+  have hev : EvGood (exec fuel) (spec fuel) inner := fun x hx ro' s' => exec_good fuel ro' x.1 x.2 s' (hinner x hx)
+  have hg := runPre_good (exec fuel) (spec fuel) ro (h.kind != .call) (fwdGas h gas + h.stip) req sh out inner act
+    (s.enter h) hsh hev
+  have hna : (runPre (exec fuel) ro (h.kind != .call) (fwdGas h gas + h.stip) req sh out inner act (s.enter h)).1 ≠ .abort := by
+    rw [hfail]; decide
+  have hext := (ext_enter s h).trans (hg.2.2.1 hna)
   have hr := revertTo_of_ext hext
-  have ho : (runPre (h.kind != .call) (fwdGas h gas + h.stip) req act (s.enter h)).1 = .fail := by
-    unfold runPre
-    rcases hfail with hlt | hact
-    · simp [hlt]
-    · by_cases hlt : fwdGas h gas + h.stip < req
-      · simp [hlt]
-      · simp [hlt, St.nativeAction, hact]
-  simp only [exec, hpre, ↓reduceIte, resolve, ho, hr]
+  simp only [exec, hpre, hfund, Bool.false_eq_true, ↓reduceIte, resolve, hfail, hr]
   simp only [reduceCtorEq, ↓reduceIte, Nat.add_zero]
   by_cases h1 : keepGas h gas < h.pFail
   · simp [h1]
   · by_cases h2 : h.swallow = true <;> simp [h1, h2]
 
-/-- a precompile call that succeeds contributes exactly its action's result (and its logs) to the state the caller goes on
-with, and is undone as one unit with the rest of the frame (`journal_undo`) -/
-theorem successful_native_action_kept (fuel : Nat) (ro : Bool) (gas : Nat) (h : CallHdr N) (req : Nat)
-    (act : Action N) (rest : List (Prog N)) (s : St N)
-    (hpre : ¬ (gas < h.callc ∨ (ro = true ∧ h.xfer.isSome = true)))
-    (hgas : ¬ fwdGas h gas + h.stip < req) (hact : (act (h.kind != .call) (s.enter h).native).1 = true)
-    (hpost : ¬ keepGas h gas + (fwdGas h gas + h.stip - req) < h.pOk) :
-    (exec (fuel + 1) ro gas (.pre h req act :: rest) s) =
-      exec fuel ro (keepGas h gas + (fwdGas h gas + h.stip - req) - h.pOk) rest
-        ((s.enter h).nativeAction (h.kind != .call) act).2 := by
-  have h1 : ((s.enter h).nativeAction (h.kind != .call) act).1 = true := by simp [St.nativeAction, hact]
-  simp only [exec, hpre, ↓reduceIte, resolve, runPre, hgas, h1, hpost]
+/-- the same for a native action without EVM calls inside, with the failure spelled out: not enough gas for
+`RequiredGas`, or the keeper part returns an error (after any writes and logs) -/
+theorem failed_native_action_leaves_no_trace (fuel : Nat) (ro : Bool) (gas : Nat) (h : CallHdr N) (req : Nat)
+    (sh : RunShape) (out : N → N) (act : ActionX N) (rest : List (Prog N)) (s : St N) (hsh : sh.clean = true)
+    (hpre : ¬ (gas < h.callc ∨ (ro = true ∧ h.xfer.isSome = true))) (hfund : h.unfunded s.native = false)
+    (hfail : fwdGas h gas + h.stip < req ∨
+      (act (h.kind != .call) (fwdGas h gas + h.stip - req) (s.enter h).native).1 = .err) :
+    exec (fuel + 1) ro gas (.pre h req sh out [] act :: rest) s =
+      (if keepGas h gas < h.pFail then (.fail, s, 0)
+       else if h.swallow then exec fuel ro (keepGas h gas - h.pFail) rest s else (.revert, s, keepGas h gas - h.pFail)) := by
+  apply failed_precompile_call_leaves_no_trace fuel ro gas h req sh out [] act rest s hsh (by simp) hpre hfund
+  have hb : sh.outerBefore = false ∧ sh.evmAfterWrite = false := by
+    simp only [RunShape.clean, Bool.and_eq_true, Bool.not_eq_true'] at hsh
+    exact ⟨hsh.1.1, hsh.2⟩
+  unfold runPre
+  rcases hfail with hlt | hact
+  · simp [hlt]
+  · by_cases hlt : fwdGas h gas + h.stip < req
+    · simp [hlt]
+    · simp [hlt, hb.1, hb.2, runClosure, runInner, St.keeper, hact]
 
-/-! ## obligations over the regenerated method table (both precompiles, every method) -/
+/-- a precompile call (clean shape, no EVM calls inside) that succeeds contributes exactly its action's result (and its
+logs) to the state the caller goes on with — journaled, so that it is undone as one unit with the rest of the frame
+(`journal_undo`) -/
+theorem successful_native_action_kept (fuel : Nat) (ro : Bool) (gas : Nat) (h : CallHdr N) (req : Nat)
+    (sh : RunShape) (out : N → N) (act : ActionX N) (rest : List (Prog N)) (s : St N) (hsh : sh.clean = true)
+    (hpre : ¬ (gas < h.callc ∨ (ro = true ∧ h.xfer.isSome = true))) (hfund : h.unfunded s.native = false)
+    (hgas : ¬ fwdGas h gas + h.stip < req)
+    (hact : (act (h.kind != .call) (fwdGas h gas + h.stip - req) (s.enter h).native).1 = .ok)
+    (hpost : ¬ keepGas h gas + (fwdGas h gas + h.stip - req) < h.pOk) :
+    (exec (fuel + 1) ro gas (.pre h req sh out [] act :: rest) s) =
+      exec fuel ro (keepGas h gas + (fwdGas h gas + h.stip - req) - h.pOk) rest
+        (let a := act (h.kind != .call) (fwdGas h gas + h.stip - req) (s.enter h).native
+         let t := (s.enter h).addLogs a.2.2
+         { t with native := if sh.outerAfter then out a.2.1 else a.2.1, journal := .native (s.enter h).native :: t.journal }) := by
+  have hb : sh.outerBefore = false ∧ sh.evmAfterWrite = false := by
+    simp only [RunShape.clean, Bool.and_eq_true, Bool.not_eq_true'] at hsh
+    exact ⟨hsh.1.1, hsh.2⟩
+  cases hoa : sh.outerAfter <;>
+  simp [exec, hpre, hfund, resolve, runPre, hgas, hb.1, hb.2, runClosure, runInner, St.keeper,
+    hact, hpost, hoa, St.poke]
+
+/-! ## none of the three shape conditions can be dropped, and the order of the statements decides
+
+Each theorem builds, for an arbitrary native store and arbitrary writes, a transaction in which every frame that touched
+the native store was dropped by the EVM — and the store that is committed is nevertheless the written one. -/
+
+def hdr0 (sw : Bool) : CallHdr N :=
+  { callc := 0, cap := 1000, stip := 0, kind := .call, xfer := none, funded := fun _ => true, swallow := sw, pOk := 0, pFail := 0 }
+def okAct (f : N → N) : ActionX N := fun _ _ n => (.ok, f n, [])
+def errAct : ActionX N := fun _ _ n => (.err, n, [])
+def panicAct (f : N → N) : ActionX N := fun _ _ n => (.panic, f n, [])
+
+/-- `outerBefore`: a keeper write on `stateDB.Context()` AHEAD of the native action (the allowance spent before the
+transfer is attempted): the action fails, the call fails, the transaction fails — and the write is committed -/
+theorem outer_write_survives_failed_tx (v : View N) (out : N → N) :
+    runTx 5 1000 [.pre (hdr0 false) 0 { RunShape.tidy with outerBefore := true } out [] errAct] v =
+      (.revert, { v with native := out v.native }, 15) := by
+  simp [runTx, exec, resolve, CallHdr.unfunded, runPre, runClosure, runInner, St.keeper, St.poke, St.enter, hdr0, errAct, fwdGas, keepGas,
+    St.revertTo, undoAll, commit, St.addLogs, RunShape.tidy]
+
+/-- … and also when the action succeeds and an enclosing frame reverts, caught by its caller: the transaction succeeds,
+the action's own effect `f` is undone, the earlier write stays -/
+theorem outer_write_survives_caught_revert (v : View N) (f out : N → N) :
+    runTx 5 1000 [.call (hdr0 true) [.pre (hdr0 false) 0 { RunShape.tidy with outerBefore := true } out [] (okAct f),
+        .revert 0]] v = (.ok, { v with native := out v.native }, 1000) := by
+  simp [runTx, exec, resolve, CallHdr.unfunded, runPre, runClosure, runInner, St.keeper, St.poke, St.enter, hdr0, okAct, fwdGas, keepGas,
+    St.revertTo, undoAll, undo, commit, St.addLogs, RunShape.tidy]
+
+/-- the SAME write made AFTER the native action is undone together with it: only the order of the two statements of
+`Run` differs from `outer_write_survives_caught_revert` -/
+theorem outer_write_after_action_is_undone (v : View N) (f out : N → N) :
+    runTx 5 1000 [.call (hdr0 true) [.pre (hdr0 false) 0 { RunShape.tidy with outerAfter := true } out [] (okAct f),
+        .revert 0]] v = (.ok, v, 1000) := by
+  simp [runTx, exec, resolve, CallHdr.unfunded, runPre, runClosure, runInner, St.keeper, St.poke, St.enter, hdr0, okAct, fwdGas, keepGas,
+    St.revertTo, undoAll, undo, commit, St.addLogs, RunShape.tidy]
+
+/-- `recovers`: the keeper part panics after half-writing the store (a store gas meter running out, say); a deferred
+`recover()` in `Run` turns the panic into an error return — but the panic went THROUGH `ExecuteNativeAction`, which
+neither restored its snapshot nor journaled it: the call fails, the transaction fails, the half-written store is committed -/
+theorem recovered_panic_survives_failed_tx (v : View N) (f : N → N) :
+    runTx 5 1000 [.pre (hdr0 false) 0 { RunShape.tidy with recovers := true } id [] (panicAct f)] v =
+      (.revert, { v with native := f v.native }, 15) := by
+  simp [runTx, exec, resolve, CallHdr.unfunded, runPre, runClosure, runInner, St.keeper, St.enter, hdr0, panicAct, fwdGas, keepGas,
+    St.revertTo, undoAll, commit, St.addLogs, RunShape.tidy]
+
+/-- without the `recover()` the same panic drops the whole transaction -/
+theorem unrecovered_panic_commits_nothing (v : View N) (f : N → N) :
+    runTx 5 1000 [.pre (hdr0 false) 0 RunShape.tidy id [] (panicAct f)] v = (.abort, v, 0) := by
+  simp [runTx, exec, resolve, CallHdr.unfunded, runPre, runClosure, runInner, St.keeper, St.enter, hdr0, panicAct, fwdGas,
+    St.addLogs, RunShape.tidy]
+
+/-- `evmAfterWrite`: the closure first writes through its keepers (`f`) and THEN makes an EVM call on the same StateDB
+whose callee moves value (any native action inside does): that inner action's journal entry — holding a snapshot that
+already contains `f` — sits BELOW the entry of the enclosing action, so a revert restores the outer snapshot first and the
+inner one last.  The frame reverts, its caller catches it, the transaction succeeds: `f` is committed although every
+frame that ran it was dropped (the moved value `t` is undone) -/
+theorem evm_call_after_keeper_write_survives_caught_revert (v : View N) (f t : N → N) :
+    runTx 6 1000 [.call (hdr0 true)
+        [.pre (hdr0 false) 0 { RunShape.tidy with evmAfterWrite := true } id
+            [(500, [.call { (hdr0 false : CallHdr N) with xfer := some t } []])] (okAct f),
+         .revert 0]] v = (.ok, { v with native := f v.native }, 1000) := by
+  simp [runTx, exec, resolve, CallHdr.unfunded, runPre, runClosure, runInner, St.keeper, St.enter, St.transfer, hdr0, okAct, fwdGas,
+    keepGas, St.revertTo, undoAll, undo, commit, St.addLogs, RunShape.tidy]
+
+/-- the SAME EVM call made BEFORE the keeper write (the order `handlerERC20Token` has: `transferFrom`, `burn`, then the
+bank moves) is covered by `atomicity`: nothing survives -/
+theorem evm_call_before_keeper_write_is_undone (v : View N) (f t : N → N) :
+    runTx 6 1000 [.call (hdr0 true)
+        [.pre (hdr0 false) 0 RunShape.tidy id
+            [(500, [.call { (hdr0 false : CallHdr N) with xfer := some t } []])] (okAct f),
+         .revert 0]] v = (.ok, v, 1000) := by
+  simp [runTx, exec, resolve, CallHdr.unfunded, runPre, runClosure, runInner, St.keeper, St.enter, St.transfer, hdr0, okAct, fwdGas,
+    keepGas, St.revertTo, undoAll, undo, commit, St.addLogs, RunShape.tidy]
+
+/-! ## programs whose keeper parts never panic (in particular the two-valued actions of the first version of this model) -/
+
+/-- no panic anywhere ⇒ no frame ever aborts -/
+theorem no_abort_without_panics (fuel : Nat) (ro : Bool) (gas : Nat) (p : List (Prog N)) (s : St N) (hnp : NoPanic p) :
+    (exec fuel ro gas p s).1 ≠ .abort := exec_ne_abort fuel ro gas p s hnp
+
+/-- `journal_undo` without the side condition -/
+theorem journal_undo_no_panic (fuel : Nat) (ro : Bool) (gas : Nat) (p : List (Prog N)) (s : St N) (hc : Clean p)
+    (hnp : NoPanic p) : (exec fuel ro gas p s).2.1.revertTo s.journal.length = s :=
+  journal_undo fuel ro gas p s hc (exec_ne_abort fuel ro gas p s hnp)
+
+theorem clean_preA {h : CallHdr N} {req : Nat} {act : Action N} {rest : List (Prog N)} (hr : Clean rest) :
+    Clean (Prog.preA h req act :: rest) := Clean.pre (by decide) (by simp) hr
+
+theorem noPanic_preA {h : CallHdr N} {req : Nat} {act : Action N} {rest : List (Prog N)} (hr : NoPanic rest) :
+    NoPanic (Prog.preA h req act :: rest) := by
+  refine NoPanic.pre (fun ro g n => ?_) (by simp) hr
+  simp only [Action.lift]
+  split <;> simp
+
+/-! ## obligations over the regenerated tables (both precompiles, every method) -/
 open FxVerif.Gen.C09
 
 /-- every method with `IsReadonly() = false` performs its keeper calls only inside exactly one `ExecuteNativeAction`
@@ -154,24 +350,100 @@ theorem dispatchers_return_errors : dispatchers.all dispatcherOk = true := by de
 /-- methods that declare themselves read-only contain no `ExecuteNativeAction` at all -/
 theorem readers_have_no_native_action : methods.all (fun m => !m.readonly || m.nativeCalls == 0) = true := by decide
 
+/-- the `Run` of EVERY method of both precompiles — the views included — has the clean shape: no keeper write on
+`stateDB.Context()` ahead of (or without) a native action, no `recover()`, and on no path through the closure an EVM
+call on the same StateDB after a keeper write (statement order regenerated from the AST, helpers expanded) -/
+theorem table_shapes_clean : runFacts.all (fun rf => (shapeOf rf).clean) = true := by decide
+
+/-- spelled out for the order inside the closures: on every path every EVM call (`ERC20Call.TransferFrom/Burn`) precedes
+every keeper write, and no path enumeration was cut short -/
+theorem evm_calls_precede_keeper_writes :
+    runFacts.all (fun rf => !rf.pathsTruncated && rf.paths.all (fun p => !evmAfterW p)) = true := by decide
+
+/-- no method wraps its native action in `recover()`, re-binds a ctx (gas meter, multistore, …; a cache branch whose
+write-back function is discarded excepted) or consumes contract gas on its own: the price of a call is exactly
+`RequiredGas` and nothing inside the native action can be cut short by a meter -/
+theorem no_recover_no_rebinding :
+    runFacts.all (fun rf => rf.recovers == 0 && rf.ctxRebinds.all (· == "CacheContext") && rf.useGas == 0) = true := by
+  decide
+
+/-- neither dispatcher defers, recovers or panics: a panic raised inside a native action reaches baseapp (which drops the
+transaction) instead of being turned into an EVM-level failure above the un-restored store -/
+theorem dispatchers_do_not_recover : dispatcherDefers.all (fun d => d.2.1 == 0 && d.2.2.1 == 0 && d.2.2.2 == 0) = true ∧
+    dispatcherDefers.length = dispatchers.length := by decide
+
+/-- the two regenerated tables describe the same methods, in the same order -/
+theorem tables_agree : methods.map (·.abiName) = runFacts.map (·.abiName) := by decide
+
+/-- every precompile node of the program carries the regenerated shape of some method of the two precompiles -/
+inductive FromTable : List (Prog N) → Prop
+  | nil : FromTable []
+  | sstore {c k v rest} : FromTable rest → FromTable (.sstore c k v :: rest)
+  | revert {c rest} : FromTable (.revert c :: rest)
+  | stop {c rest} : FromTable (.stop c :: rest)
+  | invalid {rest} : FromTable (.invalid :: rest)
+  | call {h body rest} : FromTable body → FromTable rest → FromTable (.call h body :: rest)
+  | pre {h req sh out inner act rest} : (∃ rf ∈ runFacts, sh = shapeOf rf) → (∀ x ∈ inner, FromTable x.2) → FromTable rest →
+      FromTable (.pre h req sh out inner act :: rest)
+
+theorem fromTable_clean {p : List (Prog N)} (h : FromTable p) : Clean p := by
+  induction h with
+  | nil => exact .nil
+  | sstore _ ih => exact .sstore ih
+  | revert => exact .revert
+  | stop => exact .stop
+  | invalid => exact .invalid
+  | call _ _ ihb ihr => exact .call ihb ihr
+  | pre hsh _ _ ihi ihr =>
+    obtain ⟨rf, hmem, rfl⟩ := hsh
+    exact .pre (List.all_eq_true.mp table_shapes_clean rf hmem) ihi ihr
+
+/-- the property for the code as it is now: call trees over the real methods (each node with the shape regenerated from
+its `Run`, any keeper behaviour, any ERC-20 callee programs) are all-or-nothing, at every gas limit -/
+theorem atomicity_of_table_programs (fuel gas : Nat) (p : List (Prog N)) (v : View N) (h : FromTable p) :
+    ((runTx fuel gas p v).1 ≠ .ok → (runTx fuel gas p v).2.1 = v) ∧
+    ((runTx fuel gas p v).1 = .ok → (runTx fuel gas p v).2.1 = (spec fuel false gas p v).2.1) :=
+  atomicity fuel gas p v (fromTable_clean h)
+
+/-- … and for a direct call of any real method by an externally owned account -/
+theorem direct_call_of_table_method_atomic (fuel gas : Nat) (xfer : Option (N → N)) (req : Nat) (rf : RunFacts)
+    (hrf : rf ∈ runFacts) (out : N → N) (inner : List (Nat × List (Prog N))) (act : ActionX N) (v : View N)
+    (hinner : ∀ x ∈ inner, FromTable x.2) :
+    (runTxPre fuel gas xfer req (shapeOf rf) out inner act v).1 ≠ .ok →
+    (runTxPre fuel gas xfer req (shapeOf rf) out inner act v).2.1 = v :=
+  (direct_call_atomic fuel gas xfer req (shapeOf rf) out inner act v (List.all_eq_true.mp table_shapes_clean rf hrf)
+    (fun x hx => fromTable_clean (hinner x hx))).2
+
 -- non-vacuity
 example : (methods.filter (fun m => !m.readonly)).length ≥ 12 := by decide
 example : methods.length ≥ 20 := by decide
+example : (runFacts.filter (fun rf => rf.paths.any (fun p => p.contains .E))).length ≥ 2 := by decide
+example : (runFacts.map (fun rf => rf.paths.length)).sum ≥ 100 := by decide
 
 /-- a concrete tree: SSTORE; CALL{ precompile(ok); SSTORE; REVERT } swallowed; precompile(ok) — only the last effect survives -/
 def demoAct (id : Nat) : Action (List Nat) := fun _ n => (true, id :: n, [id])
 def demoHdr (sw : Bool) : CallHdr (List Nat) :=
-  { callc := 10, cap := 100000, stip := 0, kind := .call, xfer := none, swallow := sw, pOk := 5, pFail := 5 }
+  { callc := 10, cap := 100000, stip := 0, kind := .call, xfer := none, funded := fun _ => true, swallow := sw, pOk := 5, pFail := 5 }
 def demo : List (Prog (List Nat)) :=
-  [.sstore 100 1 7, .call (demoHdr true) [.pre (demoHdr false) 50 (demoAct 1), .sstore 100 2 8, .revert 3],
-   .pre (demoHdr false) 50 (demoAct 2)]
+  [.sstore 100 1 7, .call (demoHdr true) [.preA (demoHdr false) 50 (demoAct 1), .sstore 100 2 8, .revert 3],
+   .preA (demoHdr false) 50 (demoAct 2)]
 def demoV : View (List Nat) := { slots := fun _ => 0, native := [], logs := [] }
 
+example : Clean demo ∧ NoPanic demo :=
+  ⟨.sstore (.call (clean_preA (.sstore .revert)) (clean_preA .nil)),
+   .sstore (.call (noPanic_preA (.sstore .revert)) (noPanic_preA .nil))⟩
+-- every real method's shape can sit in a program, with an ERC-20 callee program inside its native action that calls a
+-- precompile again (a native action inside a native action): such programs are `FromTable`, hence all-or-nothing
+example : ∀ rf ∈ runFacts, FromTable (N := List Nat)
+    [.call (demoHdr true)
+      [.pre (demoHdr false) 50 (shapeOf rf) id [(30000000, [.pre (demoHdr false) 50 (shapeOf rf) id [] (demoAct 7).lift, .sstore 100 3 9])]
+        (demoAct 1).lift, .revert 3]] :=
+  fun rf hrf => .call (.pre ⟨rf, hrf, rfl⟩
+      (by intro x hx; simp at hx; subst hx; exact .pre ⟨rf, hrf, rfl⟩ (by simp) (.sstore .nil)) .revert) .nil
 example : (runTx 10 1000000 demo demoV).1 = .ok := by decide
 example : (runTx 10 1000000 demo demoV).2.1.native = [2] := by decide
 example : (runTx 10 1000000 demo demoV).2.1.logs = [2] := by decide
 example : (runTx 10 1000000 demo demoV).2.1.slots 1 = 7 ∧ (runTx 10 1000000 demo demoV).2.1.slots 2 = 0 := by decide
--- too little gas for the last precompile call: it fails, bubbles up, nothing at all is committed
 -- too little gas (out of gas inside the last precompile call after the first SSTORE): nothing at all is committed
 example : (runTx 10 300 demo demoV).1 = .fail ∧ (runTx 10 300 demo demoV).2.1.native = [] ∧
     (runTx 10 300 demo demoV).2.1.slots 1 = 0 := by decide
